@@ -85,6 +85,7 @@ type vRaftOpts struct {
 	anyPV   bool // protocol version symbolic in 2..3 (else 3)
 	mono    bool // monotonic log store
 	shaped  bool // concrete log/snapshot shape relative to the base (case split), symbolic content
+	splitCommitted bool // the committed configuration has its own symbolic suffrages (a change may be in flight)
 	commitTracking bool
 }
 
@@ -191,6 +192,18 @@ func vNewRaft(tag string, o vRaftOpts) (*Raft, *vEnv) {
 	r.configurations.latestIndex = vU64(tag + ".latestIndex")
 	r.configurations.committed = r.configurations.latest.Clone()
 	r.configurations.committedIndex = r.configurations.latestIndex
+	if o.splitCommitted && o.n > 0 {
+		// same members, independently symbolic suffrages: code that consults `committed` where it should
+		// consult `latest` (or vice versa) becomes visible
+		for i := range r.configurations.committed.Servers {
+			sf := ServerSuffrage(vInt(tag + ".committed.suf"))
+			vAssume(sf >= 0)
+			vAssume(sf <= 2)
+			r.configurations.committed.Servers[i].Suffrage = sf
+		}
+		r.configurations.committedIndex = vU64(tag + ".committedIndex")
+		vAssume(r.configurations.committedIndex <= r.configurations.latestIndex)
+	}
 	r.latestConfiguration.Store(r.configurations.latest.Clone())
 	return r, env
 }
